@@ -174,6 +174,9 @@ def check(case):
     if case.get("cli"):
         info = _cli_case(case["seed"])
         return {"nontrivial": True, "classes": ["cli-skip-deduplication"], "counters": {"cli_runs": 2, "rows_checked": info["rows"]}}
+    if case.get("cli2"):
+        info = _cli_two_collections(case["seed"])
+        return {"nontrivial": True, "classes": ["cli-two-collections"], "counters": {"cli_runs": 1, "rows_checked": info["rows"]}}
     import mokapot
     from mokapot import brew_rollup
     import mokapot.peps as mpeps
@@ -604,6 +607,61 @@ def _cli_case(seed):
     return {"seed": int(seed), "rows": n, "spectra": ns}
 
 
+CLI_NAME_PAIRS = [("a.pin", "b.pin"), ("hela.rep1.pin", "hela.rep2.pin"), ("run_1.pin", "run_2.pin"), ("x.v1.search.pin", "x.v2.search.pin"),
+                  ("plate.A.tab", "plate.B.tab")]
+
+
+def _cli_two_collections(seed):
+    """Two PIN files on one command line, no --aggregate: every collection gets results of its own - one PSM per spectrum of
+    that file, nothing of the other file - whatever the files are called."""
+    import contextlib
+    import io
+
+    from mokapot import mokapot as cli
+
+    rng = np.random.default_rng(seed)
+    names = CLI_NAME_PAIRS[int(rng.integers(0, len(CLI_NAME_PAIRS)))]
+    with scratch_dir() as tmp:
+        ids, nspec = [], []
+        for i, nm in enumerate(names):
+            ns = int(rng.integers(110, 170))
+            mults = [int(x) for x in rng.integers(1, 3, ns)]
+            df, meta = datagen.psm_frame(seed + 17 * i, mults, key_arity=2, n_noise=2, sep=3.5, with_rid=False, n_peptides=60, id_prefix=f"c{i}_")
+            for c in ("f0", "f1", "f2"):
+                df[c] = df[c].round(5)
+            df.to_csv(tmp / nm, sep="\t", index=False)
+            ids.append(set(df["SpecId"]))
+            nspec.append(len(set(zip(df["ScanNr"].tolist(), df["ExpMass"].tolist()))))
+        dest = tmp / "out"
+        args = [str(tmp / nm) for nm in names] + ["--dest_dir", str(dest), "--max_iter", "1", "--folds", "2", "--train_fdr", "0.3", "--test_fdr", "0.3",
+                                                   "--keep_decoys", "--verbosity", "0", "--seed", "7", "--peps_algorithm", "hist_nnls"]
+        with contextlib.redirect_stderr(io.StringIO()), contextlib.redirect_stdout(io.StringIO()):
+            guarded(cli.main, args, allowed=[(RuntimeError, "No PSMs|Failed to calibrate"), (ValueError, "unique scoring bins"), (SystemExit, ".*"),
+                                             (TypeError, "expected non-empty vector for x")], sig="cli")
+        groups = {}
+        for f in sorted(dest.iterdir()):
+            for kind in (".targets.psms", ".decoys.psms", "targets.psms", "decoys.psms"):
+                if f.name.endswith(kind):
+                    groups.setdefault(f.name[: -len(kind)], []).append(f)
+                    break
+        found = [None, None]
+        for pre, files in groups.items():
+            got = set()
+            for f in files:
+                got |= set(_read(f)["PSMId"])
+            owners = [i for i in (0, 1) if got & ids[i]]
+            require(len(owners) == 1, "cli-collections-mixed",
+                    f"inputs {names}: result files '{pre}*.psms' hold PSMs of {len(owners)} of the input files ({sorted(f.name for f in files)})")
+            i = owners[0]
+            require(found[i] is None, "cli-collections-mixed", f"inputs {names}: two result sets for input {i}")
+            found[i] = len(got)
+        for i in (0, 1):
+            require(found[i] is not None, "cli-collection-missing",
+                    f"inputs {names}: no PSM-level result file holds the PSMs of {names[i]} (files: {sorted(f.name for f in dest.iterdir())[:8]})")
+            require(found[i] == nspec[i], "cli-collection-count", f"inputs {names}: {found[i]} PSMs reported for the {nspec[i]} spectra of {names[i]}")
+    return {"seed": int(seed), "rows": sum(found), "names": list(names)}
+
+
 def extra(tier, seed, shard, nshards, stats):
     reps = 1 if tier == "quick" else 6
     for r in range(reps):
@@ -620,3 +678,17 @@ def extra(tier, seed, shard, nshards, stats):
             stats.failure = {"case": case, "signature": v.signature, "message": v.message}
             return
         stats.observe(case, {"nontrivial": True, "classes": ["cli-skip-deduplication"], "counters": {"cli_runs": 2, "rows_checked": info["rows"]}})
+        # a second command-line history: two collections, separately reported
+        case2 = {"cli2": True, "seed": cseed}
+        stats.evaluations += 1
+        try:
+            info2 = _cli_two_collections(cseed)
+        except Rejected as rej:
+            stats.rejected += 1
+            stats.rejected_reasons[str(rej)[:80]] += 1
+            continue
+        except Violation as v:
+            stats.failure = {"case": case2, "signature": v.signature, "message": v.message}
+            return
+        stats.observe(case2, {"nontrivial": True, "classes": ["cli-two-collections", "cli-names-" + "+".join(info2["names"])],
+                              "counters": {"cli_runs": 1, "rows_checked": info2["rows"]}})
